@@ -166,11 +166,11 @@ pub fn run(args: &Args) -> Report {
         let streams = vec![StreamSpec {
             tag: 1,
             opener: 0,
-            opener_plan: EndPlan::Split(vec![Op::WV(vec![300_000, 300_000, 300_000]), Op::W(700_000), Op::WV(vec![0, 524_288, 1]), Op::WV(vec![524_287, 0, 2, 5]), Op::Shutdown], vec![Op::ReadToEof(65_536)]),
-            acceptor_plan: EndPlan::Split(vec![Op::WV(vec![600_000, 10]), Op::W(524_289), Op::Shutdown], vec![Op::ReadToEof(65_536)]),
+            opener_plan: EndPlan::Split(vec![Op::WV(vec![300_000, 300_000, 300_000]), Op::W(700_000), Op::WV(vec![0, 524_288, 1]), Op::WV(vec![524_287, 0, 2, 5]), Op::WV(vec![4; 1500]), Op::Shutdown], vec![Op::ReadToEof(65_536)]),
+            acceptor_plan: EndPlan::Split(vec![Op::WV(vec![600_000, 10]), Op::W(524_289), Op::WV(vec![1; 5000]), Op::Shutdown], vec![Op::ReadToEof(65_536)]),
         }];
         let cfg = XferCfg { a, b, cap: 0, streams, stream_buffer: 4, one_byte_frames: false, dgram_pingpong: 0, dgram_buffer: 4, drop_mux_when_writers_done: None, extra: xfer::XferExtra::NONE, horizon: 8000 };
-        let label = format!("single plain and vectored writes longer than a frame | {}", cfg.describe());
+        let label = format!("single plain and vectored writes longer than a frame, or of thousands of slices | {}", cfg.describe());
         cases.push(Case { try_unbounded: false, max_k: 1, label, exec: Box::new(move |r| xfer::exec(&cfg, &or, r)) });
     }
     // the flow-id generator proposes ids that are taken (the id of the live first stream, 0, the id the other side is
